@@ -88,7 +88,20 @@ def gen(tier, rng):
              [5, [0, 3]], [6, [0, 2], [0, 3]], [6, [0, 3], [5, [2, 2, 2], [3, [-1, 1], [0, 1]]]],
              [6, [0, 2], [4, [-512, 512]]], [5, [4, [0, 1024]], [1, 2], [6, [3, [-3, 4]], [0, 4]]],
              [5, [6, [1, 2], [0, 3]], [6, [5, [0, 2]], [4, [5, 7]]]]]
+    # integer bounds that a float64 cannot hold exactly (|bound| > 2^53): everything must stay integer
+    B = 2 ** 53
+    fixed += [[5, [0, 3], [3, [0, B + 1], [0, B + 1]]],
+              [6, [1, 2], [3, [-(B + 1), 4], [-3, 2 ** 60 + 1]], [2, 2, 3]],
+              [5, [6, [3, [B + 3, B + 7]], [0, 2]], [1, 1]],
+              [3, [-(2 ** 61 + 1), -(2 ** 61 - 1)], [2 ** 62 - 3, 2 ** 62 - 1]]]
     specs = list(fixed)
+    for _ in range(20 if quick else 200):
+        lo = rng.choice([0, -(B + rng.randint(1, 9)), B - 2, -3])
+        hi = max(lo, 0) + B + rng.randint(1, 99) * 2 + 1
+        specs.append(rng.choice([
+            [5, [0, rng.randint(1, 4)], [3, [lo, hi]]],
+            [6, [3, [lo, hi], [0, 2]], [1, rng.randint(1, 2)]],
+            [5, [5, [3, [lo, hi]], [0, 2]], [2, 2, 2]]]))
     while len(specs) < n_spaces:
         specs.append(S.random_spec(rng, rng.choice([0, 1, 2, 2, 3]), allow_float=(rng.random() < 0.6)))
     seen = set()
